@@ -11,7 +11,7 @@ Open Scope N_scope.
 (* the generated gates are the two halves of the depth window; the queue is FIFO *)
 Theorem C01_gates_are_the_window : forall mn mx d,
   gate_report mn d = ((mn =? 0) || (mn <=? d)) /\ gate_descend mx d = ((mx =? 0) || (d <? mx)).
-Proof. intros; split; reflexivity. Qed.
+Proof. intros; split; [exact (gate_report_spec mn d)|exact (gate_descend_eq mx d)]. Qed.
 Theorem C01_queue_is_fifo : queue_pop_front = true /\ queue_push_back = true.
 Proof. split; reflexivity. Qed.
 
